@@ -3,11 +3,13 @@ package c11
 import (
 	"context"
 	"fmt"
+	"strings"
 	"sync"
 	"time"
 
 	"go.sia.tech/core/consensus"
 	"go.sia.tech/core/types"
+	"go.sia.tech/coreutils/syncer"
 	"verifharness/netx"
 	"verifharness/vh"
 )
@@ -79,22 +81,27 @@ type byzSpec struct {
 // mixedCase: the victim is connected to one honest node holding the heaviest valid chain and to
 // several scripted peers at once. Oracle only: it must end on the honest tip.
 type mixedCase struct {
-	name   string
-	tags   []string
-	w      *world
-	victim []types.Block
-	honest []types.Block
-	byz    []byzSpec
+	name    string
+	tags    []string
+	w       *world
+	victim  []types.Block
+	honest  []types.Block
+	byz     []byzSpec
+	sendCap uint64 // victim's (and the honest node's) WithMaxSendBlocks
 }
 
 func (mc *mixedCase) run(ip string) *vh.Case {
 	c := &vh.Case{Name: mc.name, Tags: mc.tags, Nontrivial: true, Key: mc.name}
 	nt := mc.w.nt
-	victim := nt.NewNode(ip + ".1")
+	var nopts []syncer.Option
+	if mc.sendCap > 0 {
+		nopts = append(nopts, syncer.WithMaxSendBlocks(mc.sendCap))
+	}
+	victim := nt.NewNode(ip+".1", nopts...)
 	victim.Load(mc.victim)
 	trace := traceWork(victim)
 	startWork := netx.WorkOf(victim.CM.TipState().TotalWork)
-	hon := nt.NewNode(ip + ".3")
+	hon := nt.NewNode(ip+".3", nopts...)
 	hon.Load(mc.honest)
 	defer hon.Close()
 	var peers []*netx.Byz
@@ -122,6 +129,17 @@ func (mc *mixedCase) run(ip string) *vh.Case {
 		vw := victim.CM.TipState()
 		if hw.SufficientlyHeavierThan(vw) {
 			c.Oracle("stalled-below-honest-chain", "with an honest peer on a sufficiently heavier valid chain connected, the victim did not reach it within 25 s (%s)", info)
+		}
+	}
+	// every ban must be a ban of one of the scripted peers: the honest node did nothing wrong
+	byzAddr := map[string]bool{}
+	for _, bz := range peers {
+		byzAddr[bz.LocalAddr] = true
+	}
+	for _, b := range victim.Store.Bans() {
+		if !byzAddr[b.Addr] && !strings.Contains(b.Addr, "/") {
+			c.Oracle("honest-peer-banned:mixed", "the victim reported the honest node (%s) for banning: %s", b.Addr, b.Reason)
+			break
 		}
 	}
 	for _, bz := range peers {
@@ -197,6 +215,16 @@ func mixedJobs(w, wl *world, rng *vh.RNG) []job {
 	light.MineN(4, 2*time.Second, 0x79)
 	add(true, &mixedCase{name: "mixed-victim-on-fork", tags: []string{"kind:honest+byzantine", "byz:same-id-other-body", "regime:v2-checkpoint"},
 		w: w, victim: light.Blocks, honest: main.Blocks, byz: []byzSpec{specs[0], specs[7]}})
+	// only an honest node, request bases exactly on the require height (tip there / request boundary there)
+	reqH := int(w.nt.N.HardforkV2.RequireHeight)
+	for _, d := range []int{-1, 0, 1} {
+		add(d == 0, &mixedCase{name: fmt.Sprintf("honest-only-tip-at-require%+d", d), tags: []string{"kind:honest-only", "boundary:victim-tip-vs-require", fmt.Sprintf("base:require%+d", d)},
+			w: w, victim: main.Blocks[:reqH+d], honest: main.Blocks})
+	}
+	add(true, &mixedCase{name: "honest-only-split5-boundary-on-require", tags: []string{"kind:honest-only", "boundary:request-base-on-require", "split:5"},
+		w: w, victim: nil, honest: main.Blocks, sendCap: 5})
+	add(false, &mixedCase{name: "honest-only-split2-boundary-on-require", tags: []string{"kind:honest-only", "boundary:request-base-on-require", "split:2"},
+		w: w, victim: main.Blocks[:2], honest: main.Blocks, sendCap: 2})
 	// long chains: three requests, one Byzantine peer corrupting checkpoints, one stalling
 	add(false, &mixedCase{name: "mixed-long", tags: []string{"kind:honest+byzantine", "regime:v1-then-v2", "requests:3"},
 		w: wl, victim: nil, honest: wl.main.Blocks, byz: []byzSpec{
